@@ -454,10 +454,15 @@ static Type *declspec(Token **rest, Token *tok, VarAttr *attr) {
       // If there are several alignment specifiers, the strictest one
       // takes effect [https://www.sigbus.info/n1570#6.7.5p6].
       int align;
-      if (is_typename(tok))
+      if (is_typename(tok)) {
         align = typename(&tok, tok)->align;
-      else
-        align = const_expr(&tok, tok);
+      } else {
+        Token *start = tok;
+        int64_t n = const_expr(&tok, tok);
+        if (n < 0 || n > (1 << 28) || (n & (n - 1)))
+          error_tok(start, "alignment must be a power of two no larger than 2^28");
+        align = n;
+      }
       attr->align = MAX(attr->align, align);
       tok = skip(tok, ")");
       continue;
